@@ -41,6 +41,10 @@ TABLE = {
     "C09": ("model_checking", "E1 SymObj",
             "Symbolic execution of 36 shape/index functions on arrays whose every coefficient is a distinct atom (an element is recognisable wherever it lands, for all values); oracle = numpy "
             "applied to an object array of model polynomials; axes/permutations/sections/k/index grammar enumerated (bounded-exhaustive in the thorough tier).", E1_NOTE, E1_TECH),
+    "C10": ("model_checking", "E1 SymObj",
+            "Symbolic execution of sum/cumsum/mean/prod/diff/ediff1d/inner/outer/matmul/det (function, method and numpy.add.reduce/accumulate spellings) with symbolic coefficients; all axes, "
+            "axis tuples, keepdims, n, prepend/append; matrices 1x1..3x3 (4x4 thorough) and stacks; oracle = numpy's own fold over an object array of model polynomials, Leibniz formula for det.",
+            E1_NOTE, E1_TECH),
     "C14": ("model_checking", "E3 CrossHair",
             "CrossHair (z3) executes numpoly/option.py symbolically, unmodified: op codes, payloads and the prior option state of a call history of depth 3 (quick) / 3-5 (thorough) over 7 "
             "operation kinds are symbolic; after every step get_options() must equal a stack model and get_options(defaults=True) the shipped defaults. Only 'Confirmed over all paths' counts; "
